@@ -1045,3 +1045,110 @@ def m_slice_get(ex, callee, args):
     if n < len(v.items):
         return some(Ref(v, n))
     return none()
+
+
+
+# ----------------------------------------------------------------------
+# more Option / Result combinators (plausible in small source changes)
+
+@model(r'^std::result::Result::<.*>::or_else::<')
+def m_res_or_else(ex, callee, args):
+    v = args[0]
+    if not _opt_disc(ex, v):
+        return ok(_payload(v, 0))
+    return ex.call_closure(args[1], [_payload(v, 1)])
+
+
+@model(r'^std::result::Result::<.*>::(map|and_then)::<')
+def m_res_map(ex, callee, args):
+    v = args[0]
+    if not _opt_disc(ex, v):
+        r = ex.call_closure(args[1], [_payload(v, 0)])
+        return ok(r) if '::map::<' in callee else r
+    return err(_payload(v, 1))
+
+
+@model(r'^std::result::Result::<.*>::unwrap_or$')
+def m_res_unwrap_or(ex, callee, args):
+    v = args[0]
+    if not _opt_disc(ex, v):
+        return _payload(v, 0)
+    return args[1]
+
+
+@model(r'^std::result::Result::<.*>::(unwrap_or_else|map_or_else)::<|^std::result::Result::<.*>::unwrap_or_default$')
+def m_res_unwrap_or_else(ex, callee, args):
+    v = args[0]
+    if not _opt_disc(ex, v):
+        return _payload(v, 0)
+    if 'unwrap_or_default' in callee:
+        raise Unsupported('unwrap_or_default')
+    return ex.call_closure(args[1], [_payload(v, 1)])
+
+
+@model(r'^std::option::Option::<.*>::(unwrap_or_else|or_else)::<')
+def m_opt_unwrap_or_else(ex, callee, args):
+    v = args[0]
+    if _opt_disc(ex, v):
+        return _payload(v, 1) if 'unwrap_or_else' in callee else v
+    return ex.call_closure(args[1], [])
+
+
+@model(r'^std::option::Option::<.*>::map_or::<')
+def m_opt_map_or(ex, callee, args):
+    v = args[0]
+    if _opt_disc(ex, v):
+        return ex.call_closure(args[2], [_payload(v, 1)])
+    return args[1]
+
+
+@model(r'^std::option::Option::<.*>::(is_some_and|is_none_or)::<')
+def m_opt_is_some_and(ex, callee, args):
+    v = args[0]
+    some_and = 'is_some_and' in callee
+    if _opt_disc(ex, v):
+        return ex.call_closure(args[1], [_payload(v, 1)])
+    return not some_and
+
+
+@model(r'^std::option::Option::<.*>::filter::<')
+def m_opt_filter(ex, callee, args):
+    v = args[0]
+    if _opt_disc(ex, v):
+        p = _payload(v, 1)
+        if ex.branch(ex.call_closure(args[1], [Ref(Cont([p]), 0)])):
+            return some(p)
+    return none()
+
+
+@model(r'^std::option::Option::<.*>::or$')
+def m_opt_or(ex, callee, args):
+    return args[0] if _opt_disc(ex, args[0]) else args[1]
+
+
+@model(r'^std::cmp::(min|max)::<|^<(u64|usize|i64|u32|i32) as Ord>::(min|max)$|^core::cmp::Ord::(min|max)')
+def m_min_max(ex, callee, args):
+    a, b = args[0], args[1]
+    lt = ex.int_binop('Lt', a, b)
+    want_min = 'min' in callee.split('::')[-1] or '::min::<' in callee
+    if isinstance(lt, bool):
+        return (a if lt else b) if want_min else (b if lt else a)
+    x, y = to_z3bv(a), to_z3bv(b)
+    return BV(z3.If(lt, x, y) if want_min else z3.If(lt, y, x), a.ty)
+
+
+@model(r'^core::num::<impl (u64|usize|i64|u32)>::(saturating_sub|saturating_add|wrapping_add|wrapping_sub)$')
+def m_sat_arith(ex, callee, args):
+    a, b = args[0], args[1]
+    op = callee.split('::')[-1]
+    if op.startswith('wrapping'):
+        return ex.int_binop('Add' if op.endswith('add') else 'Sub', a, b)
+    r = ex.int_binop('AddWithOverflow' if op.endswith('add') else 'SubWithOverflow', a, b)
+    val, ovf = r.items
+    bits, signed = INT_TYPES[a.ty]
+    if signed:
+        raise Unsupported('signed saturating arithmetic')
+    lim = mk_int((1 << bits) - 1 if op.endswith('add') else 0, a.ty)
+    if isinstance(ovf, bool):
+        return lim if ovf else val
+    return BV(z3.If(ovf, to_z3bv(lim), to_z3bv(val)), a.ty)
